@@ -52,20 +52,25 @@ def gen_scenario(seed, k):
     defs = rng.sample(["s1", "s2", "s3"], rng.randrange(1, 4))
     if k == 0:
         defs = ["s2", "s1"]
+    if k == 2:
+        defs = ["s1", "s2"]
     scripts = {}
     for s in defs:
-        beh = rng.choice(["ok", "ok", "ok", "ok", "slowok", "fail", "noeq", "reserved", "empty"])
+        beh = rng.choice(["ok", "ok", "ok", "ok", "slowok", "fail", "noeq", "reserved", "empty", "leakok"])
         if k == 0: beh = "ok"
+        if k == 2: beh = "leakok" if s == "s1" else "ok"     # corpus: a script that succeeds but leaks a handle still provides its variables
         lines = [f"VT_K_{s}={s}v", f"VT_SHARED=from-{s}"]
         if rng.random() < 0.4: lines += ["VT_DUP=first", "VT_DUP=second-" + s]
         if rng.random() < 0.4: lines += [f"VT_EQ=a=b={s}"]
         # keys that only *look* reserved or shared once trimmed: accepted verbatim, so they must not touch the real names
-        if beh in ("ok", "slowok") and rng.random() < 0.35: lines.insert(rng.randrange(len(lines) + 1), rng.choice(["  NEXTEST_PROFILE=hijacked", "\tNEXTEST_EXECUTION_MODE=hijacked", " VT_SHARED=indented", "export NEXTEST_PROFILE=hijacked", "VT_SHARED =with-blank",
+        if beh in ("ok", "slowok", "leakok") and rng.random() < 0.35: lines.insert(rng.randrange(len(lines) + 1), rng.choice(["  NEXTEST_PROFILE=hijacked", "\tNEXTEST_EXECUTION_MODE=hijacked", " VT_SHARED=indented", "export NEXTEST_PROFILE=hijacked", "VT_SHARED =with-blank",
                                                                                                                     "  NEXTEST_TEST_GROUP=hijacked", "\tNEXTEST_TEST_GROUP_SLOT=7", " NEXTEST_TEST_GLOBAL_SLOT=99"]))
         # corpus: the slot variables nextest hands to a test cannot be overwritten by a script, however the key is spelt
         if k == 0 and s == "s1": lines += ["  NEXTEST_TEST_GROUP=hijacked", " NEXTEST_TEST_GLOBAL_SLOT=99", "\tNEXTEST_TEST_GROUP_SLOT=7"]
         acts = []
         if beh == "slowok": acts.append("sleep:250")
+        # exits 0 while a descendant keeps the captured stdout open well past the leak timeout: `SETUP LEAK`, a success
+        if beh == "leakok": acts.append("child:1500")
         if beh == "noeq": lines.insert(rng.randrange(len(lines) + 1), "this line has no equals sign")
         if beh == "reserved": lines.insert(rng.randrange(len(lines) + 1), rng.choice(["NEXTEST_FOO=1", "NEXTEST=2", "NEXTESTX=3"]))
         if beh == "empty": lines = []
@@ -83,6 +88,8 @@ def gen_scenario(seed, k):
     if k == 0:
         rules = [{"filter": "binary(t_one)", "platform": None, "setup": ["s1", "s2"], "truth": [t["bin"] == "t_one" for t in tests]},
                  {"filter": "all()", "platform": None, "setup": ["s1"], "truth": [True for t in tests]}]
+    if k == 2:
+        rules = [{"filter": "all()", "platform": None, "setup": ["s1", "s2"], "truth": [True for t in tests]}]
     if k == 1:
         # corpus: one script listed by two rules with different filters; a test matched only by the second rule must still get the variables
         tests[:] = [{"bin": "t_one", "pkg": "alpha", "name": "aa::x", "ignored": False, "selected": True}, {"bin": "t_three", "pkg": "beta", "name": "bb::z", "ignored": False, "selected": True}]
@@ -93,7 +100,9 @@ def gen_scenario(seed, k):
         rules = [{"filter": "binary(t_one)", "platform": None, "setup": ["s1"], "truth": [True, False]}, {"filter": "package(beta)", "platform": None, "setup": ["s1"], "truth": [False, True]}]
         cli_filter = None
     cfg = 'experimental = ["setup-scripts"]\n'
-    for s in defs: cfg += f'[script.{s}]\ncommand = ["@VSCRIPT@", "{s}"]\n'
+    for s in defs:
+        cfg += f'[script.{s}]\ncommand = ["@VSCRIPT@", "{s}"]\n'
+        if scripts[s]["beh"] == "leakok": cfg += 'capture-stdout = true\nleak-timeout = "200ms"\n'
     cfg += '[profile.default]\nfail-fast = false\nstatus-level = "all"\nfinal-status-level = "all"\ntest-threads = 4\n'
     for r in rules:
         cfg += "[[profile.default.scripts]]\n"
